@@ -92,7 +92,7 @@ def run(seed, tier, extra_cases=None, use_cache=True):
     cs = extra_cases if extra_cases is not None else cases(seed, tier)
     st = sp.run(seed, tier, extra_cases=cs)          # real rewriter + static verdicts (named deviations)
     statdevs = {}
-    for prop in ("C01", "C02", "C03", "C06"):
+    for prop in ("H01", "C02", "C03", "C06"):
         for rid, v, d in st["verdicts"].get(prop, []):
             if v == "dev":
                 statdevs.setdefault(rid, set()).update(
